@@ -203,6 +203,10 @@ def build_inputs(rng, root):
     chk = genchk.gen_checkpoint(rng, nlevels=rng.choice([1, 2]))
     # the 'chk' prefix is looked for in the last component only: ancestors holding it must not matter
     chkdir = os.path.join(root, rng.choice(['run', 'chk_archive', 'old.chk']), rng.choice(['chk00005', 'chk00005', 'restart7', 'restart7']))
+    rn = random.Random(repr(rng.getstate()[1][:8]) + 'chkname')
+    if rn.random() < 0.4:
+        # checkpoint names that hold 'chk' elsewhere than at their start
+        chkdir = os.path.join(os.path.dirname(chkdir), rn.choice(['flameA_chk00023', 'old.chk00024', 'case2chk7', 'chk_chk00009']))
     genchk.write_checkpoint(chk, chkdir)
     rpath = os.path.join(root, 'recipe.py')
     with _real_open(rpath, 'w') as f:
